@@ -100,6 +100,31 @@ theorem unit_messages_follow_phase (n : Nat) (mf : MaxFail) (acts : List System.
     System.Pat i (s.phase i) (System.proj i s.chan) :=
   (System.inv12_run acts _ s (System.inv_init n mf) (System.inv2_init n mf) h).2.pat i
 
+/-- **no unit waits for the dispatcher for ever**: in every reachable state of the dispatcher × units system, a unit that has
+    announced an attempt (`Started` / `RetryStarted`) and waits for the reply gets it — acknowledged or refused — after at most
+    as many deliveries as there are messages in the channel, each of which the dispatcher can make (it never panics, never
+    blocks on a unit) -/
+theorem waiting_unit_is_answered (n : Nat) (mf : MaxFail) (acts : List System.Act) (s : System.Sys)
+    (h : System.runActs (System.Sys.init n mf) acts = some s) (i : Nat)
+    (hp : s.phase i = .waitStart ∨ s.phase i = .waitRetry) :
+    ∃ k s', k ≤ s.chan.length ∧ System.runActs s (List.replicate k .deliver) = some s' ∧
+      (s'.phase i = .running ∨ s'.phase i = .gone) := by
+  obtain ⟨h1, h2⟩ := System.inv12_run acts _ s (System.inv_init n mf) (System.inv2_init n mf) h
+  exact System.waiting_answered _ s h1 h2 rfl i hp
+
+/-- **no deadlock**: in every reachable state every unit that has not ended can move — be dispatched, have its message
+    delivered, end its attempt, or see its retry delay run out — and **a final result in flight is reported**: a unit's
+    `Finished` is handled after at most as many deliveries as there are messages in the channel -/
+theorem no_unit_is_stuck (n : Nat) (mf : MaxFail) (acts : List System.Act) (s : System.Sys)
+    (h : System.runActs (System.Sys.init n mf) acts = some s) (i : Nat) :
+    ((s.phase i ≠ .done ∧ s.phase i ≠ .gone) →
+      ∃ a, (a = .dispatch i ∨ a = .deliver ∨ (∃ r sl, a = .exitFinish i r sl) ∨ ∃ x y, a = .delayExpires i x y) ∧
+        (System.step s a).isSome = true) ∧
+    (s.phase i = .done → ∃ k s', k ≤ s.chan.length ∧ System.runActs s (List.replicate k .deliver) = some s' ∧
+      s'.phase i = .done ∧ System.proj i s'.chan = []) := by
+  obtain ⟨h1, h2⟩ := System.inv12_run acts _ s (System.inv_init n mf) (System.inv2_init n mf) h
+  exact ⟨System.progress_possible s h2 h1 i, System.finished_processed _ s h1 h2 rfl i⟩
+
 /-! ## Scheduler: is every selected test's future eventually created? -/
 
 open NextestModel.Sched in
